@@ -400,10 +400,36 @@ def run_case(case, tier):
                         diffs.append((cname, "coupling", g["label"], fld, len(g[fld]), len(h[fld])))
                 if (g["ctg"] is None) != (h["ctg"] is None):
                     diffs.append((cname, "coupling", g["label"], "penalised", g["ctg_label"], h["ctg_label"]))
+    if not diffs and ra.rec and rb.rec and ra.text and rb.text and not twins:
+        # the report lists the same groups in the same order: rows of the determinant table and of the summary,
+        # identified by the position of the group's atom
+        def order(run):
+            by = {}
+            for g in run.rec["confs"]["AVR"]["groups"]:
+                by.setdefault(g["label"], []).append((tuple(g["akey"]), g["type"]))
+            parsed = obs.parse_pka_text(run.text)
+            tab = [by[r["label"]][0] for r in obs.parse_det_rows(parsed["det_rows"]) if len(by.get(r["label"], ())) == 1]
+            summ = [by[r["label"]][0] for r in obs.parse_summary(parsed["summary"]) if len(by.get(r["label"], ())) == 1]
+            return tab, summ
+        try:
+            (tab_a, sum_a), (tab_b, sum_b) = order(ra), order(rb)
+        except ValueError:
+            tab_a = tab_b = sum_a = sum_b = []
+        counts["report_rows_ordered"] = counts.get("report_rows_ordered", 0) + len(tab_a)
+        for what, xa, xb in (("determinant table", tab_a, tab_b), ("summary", sum_a, sum_b)):
+            if xa != xb and sorted(xa) == sorted(xb):
+                k_ = next(i for i in range(len(xa)) if xa[i] != xb[i])
+                diffs.append(("pka-text", "row-order", what, "row %d" % k_, xa[k_], xb[k_]))
     if diffs:
         single = bool(ra.rec) and len(ra.rec["names"]) == 1
         structural = [d_ for d_ in diffs if len(d_) > 1 and ((single and d_[1] in ("missing-in-a", "missing-in-b")) or (
             d_[1] == "group" and len(d_) > 4 and d_[4] in ("titratable", "use", "type", "rtype", "charge")))]
+        if structural and not single:
+            # with several conformations the completion step loses whole twin residues in the later ones (part of
+            # the same finding); a bridged CYS whose partner is lost that way titrates there - so a change of
+            # which groups titrate is only held against the labels where no group went missing in that conformation
+            lost = {d_[0] for d_ in diffs if len(d_) > 1 and d_[1] in ("missing-in-a", "missing-in-b")}
+            structural = [d_ for d_ in structural if d_[0] not in lost]
         if kind == "icode-renumber" and twins and not structural:
             # the known merging of insertion-code twins moves numbers (desolvation, determinants) and, when
             # conformations are completed, loses atoms of twin residues in the later conformations; which groups
